@@ -887,6 +887,7 @@ UNIT = dict(
     items=TYPES + [
         RawFile('../common/str_prelude.rs'),
         RawFile('../common/blen_lemmas.rs'),
+        RawFile('../u_dfa/unique_lemmas.rs'),
         Struct(F_SPAN, 'Span', derive=['Clone', 'Copy']),
         Struct(F_MATCH, 'Match', derive=['Clone', 'Copy']),
         Struct(mode.F_MODE, 'CompiledScannerMode', derive=[]),
